@@ -167,31 +167,32 @@ def deep_check(s, rep, roundtrip=True):
 # (a) grammar slice, one worker call per root
 # --------------------------------------------------------------------------
 def part_a_worker(args):
-    ri, stride = args
+    ri, si, stride = args
     rep = Report()
-    root = ROOTS[ri]
+    root, short = ROOTS[ri], SHORTS[si]
     n_s, n_d, n_b = len(SHORTS), len(DEGLISTS), len(BASSES)
-    idx = ri * n_s * n_d * n_b
-    for short in SHORTS:
-        for degs in DEGLISTS:
-            for bass in BASSES:
-                s = make_label(root, short, degs, bass)
-                a = R.recognise(s)
-                b = lib_accepts(s)
-                if (("ok", None) if a else ("raise",)) != b:
-                    rep.hit(explain(s, "recognise"), (s, a, b))
-                if not a:
-                    rep.hit("UNEXPLAINED:enumerator_label_rejected_by_oracle", s)
-                rep.count("a_labels")
-                if idx % stride == 0:
-                    deep_check(s, rep, roundtrip=(idx % (3 * stride) == 0))
-                idx += 1
+    # the offset ri makes every (shorthand, degrees, bass) combination deep-
+    # checked for at least one root whatever the stride (35 roots >= stride)
+    idx = (ri * n_s + si) * n_d * n_b + ri
+    for degs in DEGLISTS:
+        for bass in BASSES:
+            s = make_label(root, short, degs, bass)
+            a = R.recognise(s)
+            b = lib_accepts(s)
+            if (("ok", None) if a else ("raise",)) != b:
+                rep.hit(explain(s, "recognise"), (s, a, b))
+            if not a:
+                rep.hit("UNEXPLAINED:enumerator_label_rejected_by_oracle", s)
+            rep.count("a_labels")
+            if idx % stride == 0:
+                deep_check(s, rep, roundtrip=(idx % (3 * stride) == 0))
+            idx += 1
     return rep
 
 
 def part_a(rep, pool, stride):
-    jobs = [(ri, stride) for ri in range(len(ROOTS))]
-    it = pool.imap_unordered(part_a_worker, jobs) if pool else map(part_a_worker, jobs)
+    jobs = [(ri, si, stride) for ri in range(len(ROOTS)) for si in range(len(SHORTS))]
+    it = pool.imap_unordered(part_a_worker, jobs, 4) if pool else map(part_a_worker, jobs)
     for r in it:
         rep.merge(r)
 
@@ -402,6 +403,26 @@ def part_d(rep):
     for args in (("C",), ("C", "min"), ("C", "", ["3"]), ("C", "", None, "5")):
         if _call(R.join, *args) != _call(C.join, *args):
             rep.hit("UNEXPLAINED:join_defaults", args)
+    # the examples written in the documentation hold on both sides
+    doc_pairs = [("thirds", "A:7", "A:maj", 1.0), ("thirds", "A:min", "A:dim", 1.0),
+                 ("triads", "A:7", "A:maj", 1.0), ("triads", "A:min", "A:dim", 0.0),
+                 ("triads", "A:aug", "A:maj", 0.0), ("tetrads", "A:7", "A:9", 1.0),
+                 ("tetrads", "A:7", "A:maj7", 0.0)]
+    for rule, a, b, want in doc_pairs:
+        rep.count("d_doc_examples")
+        if R.compare(rule, a, b) != want:
+            rep.hit("UNEXPLAINED:oracle_vs_documented_example", (rule, a, b, want))
+        if float(getattr(C, rule)([a], [b])[0]) != want:
+            rep.hit("UNEXPLAINED:library_vs_documented_example", (rule, a, b, want))
+    doc_split = [("C", ("C", "maj", frozenset(), "1")),
+                 ("G#:min(*b3,*5)/5", ("G#", "min", frozenset({"*b3", "*5"}), "5")),
+                 ("A:(3)/6", ("A", "", frozenset({"3"}), "6"))]
+    for lab, want in doc_split:
+        rep.count("d_doc_examples")
+        if R.parse(lab) != want:
+            rep.hit("UNEXPLAINED:oracle_vs_documented_example", (lab, want))
+        if lib_split(lab, False) != ("ok", want):
+            rep.hit("UNEXPLAINED:library_vs_documented_example", (lab, want))
     # sentinels
     for lab, enc in (("N", (-1, (0,) * 12, -1)), ("X", (-1, (-1,) * 12, -1))):
         for r, st in FLAGS:
@@ -414,8 +435,19 @@ def main():
     t0 = time.time()
     ncpu = os.cpu_count() or 1
     env = os.environ.get("CHORD_SELFTEST_STRIDE")
-    stride = int(env) if env else (1 if ncpu >= 12 else 7 if ncpu >= 4 else 13)
     nproc = int(os.environ.get("CHORD_SELFTEST_PROCS", min(ncpu, 16)))
+    if env:
+        stride = int(env)
+    else:
+        # measured: ~15 us per label for recognise/validate, ~400 us per deep
+        # check (both sides, 4 flag combinations, round trip on every third);
+        # pick the smallest stride whose predicted wall time for (a) is <= 150 s
+        # and that keeps at least 300k deep-checked labels.
+        n_all = len(ROOTS) * len(SHORTS) * len(DEGLISTS) * len(BASSES)
+        stride = 1
+        while (n_all * (15e-6 + 400e-6 / stride) / (0.85 * max(nproc, 1)) > 150
+               and n_all // (stride + 1) >= 300000):
+            stride += 1
     pool = None
     if nproc > 1:
         try:
